@@ -195,7 +195,7 @@ class Speller:
         i = 0
         while i < len(toks):
             j = i
-            while j + 1 < len(toks) and toks[j + 1] == toks[i] and len(toks[i]) == 1 and toks[i] != 'x':
+            while j + 1 < len(toks) and toks[j + 1] == toks[i] and (len(toks[i]) == 1 or toks[i].startswith('T{')) and toks[i] != 'x':
                 j += 1
             if j > i and self.counts:
                 out.append('%d%s' % (j - i + 1, toks[i]))
@@ -225,7 +225,7 @@ ALL_CODES = list('cbB?hHiIlLqQfdgOP') + ['Zf', 'Zd', 's', 'p', 'e', 'n', 'N']
 
 def mutate_format(fmt, rng):
     """near-miss of a matching format; returns (text, mutation kind)"""
-    kind = rng.choice(['code', 'code', 'pad+', 'pad-', 'swap', 'count', 'endian', 'dup', 'drop', 'arraydim', 'truncate', 'brace'])
+    kind = rng.choice(['code', 'code', 'pad+', 'pad-', 'swap', 'count', 'endian', 'endian', 'dup', 'drop', 'arraydim', 'truncate', 'brace', 'structcount'])
     codes = [m for m in re.finditer(r'Z[fdg]|[cbB?hHiIlLqQfdgsp]', fmt)]
     if kind == 'code' and codes:
         m = rng.choice(codes)
@@ -246,6 +246,10 @@ def mutate_format(fmt, rng):
     if kind == 'count' and codes:
         m = rng.choice(codes)
         return fmt[:m.start()] + str(rng.choice([0, 2, 3, 7])) + fmt[m.start():], 'count-inserted'
+    if kind == 'structcount' and 'T{' in fmt:
+        i = rng.choice([m.start() for m in re.finditer(r'T\{', fmt)])
+        if i == 0 or not fmt[i - 1].isdigit():
+            return fmt[:i] + str(rng.choice([2, 3])) + fmt[i:], 'struct-count-inserted'
     if kind == 'endian':
         body = fmt.lstrip('@=<>!^')
         return rng.choice(['>', '!']) + body, 'big-endian'
@@ -313,7 +317,20 @@ def layout(acc, rng, itemsize):
     for d in shape:
         f_strides.append(s)
         s *= max(d, 1)
-    kind = rng.choice(['contig-c', 'contig-c', 'contig-f', 'strided', 'negative'] if nd > 1 else ['contig-c', 'contig-c', 'strided', 'negative'])
+    kind = rng.choice(['contig-c', 'contig-c', 'contig-f', 'strided', 'negative', 'row-padded', 'col-padded'] if nd > 1
+                      else ['contig-c', 'contig-c', 'strided', 'negative'])
+    if kind == 'row-padded':        # innermost dimension contiguous, rows further apart (a[:, :k] of a wider array)
+        st, s2 = [], itemsize
+        for q, dd in enumerate(reversed(shape)):
+            st.insert(0, s2)
+            s2 *= max(dd, 1) + (2 if q == 0 else 0)
+        return shape, tuple(st), kind
+    if kind == 'col-padded':
+        st, s2 = [], itemsize
+        for q, dd in enumerate(shape):
+            st.append(s2)
+            s2 *= max(dd, 1) + (3 if q == 0 else 0)
+        return shape, tuple(st), kind
     if kind == 'contig-c':
         return shape, tuple(c_strides), kind
     if kind == 'contig-f':
@@ -322,6 +339,9 @@ def layout(acc, rng, itemsize):
         k = rng.choice([2, 3])
         return shape, tuple(st * k for st in c_strides), kind
     return shape, tuple(-st for st in c_strides), kind
+
+
+DISTINCT = set()
 
 
 def gen_cases(ck, acc, rng, prod_hist, n_per):
@@ -356,6 +376,8 @@ def gen_cases(ck, acc, rng, prod_hist, n_per):
         shape, strides, lk = layout(acc, rng, max(itemsize, 1))
         ro = rng.random() < 0.12
         pv = c17ref.predict(acc.dt, acc.ndim, acc.mode, acc.writable, fmt, itemsize, shape, strides, ro)
+        if pv != 'ambiguous':
+            DISTINCT.add((acc.name, fmt, pv, lk if pv == 'accept' else ''))
         prod_hist['verdict:' + pv] = prod_hist.get('verdict:' + pv, 0) + 1
         cases.append({'f': acc.name, 'a': '(FB(%r, %d, %r, %r, %r, %d),)' % (fmt, itemsize, shape, strides, ro, rng.randrange(10 ** 6)),
                       't': acc.tag, 'cat': cat, 'lk': lk, 'ro': ro, 'fmt': fmt, 'pv': pv})
@@ -375,6 +397,7 @@ NP_SPECS = {
     'S_nest': "np.dtype([('x', np.dtype([('a', 'i1'), ('b', 'i2'), ('c', 'i4')], align=True)), ('y', 'f8'), "
               "('z', np.dtype([('a', 'i4'), ('b', 'f8')], align=True))], align=True)",
     'S_cz': "np.dtype([('z', 'c16'), ('f', 'f4')], align=True)", 'S_one': "np.dtype([('q', 'u8')], align=True)",
+    'S_rep': "np.dtype([(n, np.dtype([('a', 'i4'), ('b', 'f8')], align=True)) for n in 'pqr'], align=True)",
 }
 
 
@@ -388,11 +411,15 @@ def real_exporter_cases(ck, acc, rng, n):
         shape = tuple(rng.choice([0, 1, 2, 3]) for _ in range(acc.ndim))
         if rng.random() < 0.08:
             shape = shape + (2,)
-        kind = rng.choice(['np', 'np', 'np-f', 'np-step', 'np-ro', 'np-swapped', 'ctypes'])
+        kind = rng.choice(['np', 'np', 'np-f', 'np-step', 'np-ro', 'np-swapped', 'ctypes', 'np-cols'])
         if kind == 'ctypes' and len(shape) == 1:
             cases.append({'f': acc.name, 'a': '(CTA(%r, %d, %d),)' % (dt, shape[0] or 1, seed), 't': acc.tag, 'cat': 'ctypes', 'lk': 'contig-c'})
             continue
         spec = NP_SPECS[dt]
+        if kind == 'np-cols' and len(shape) == 2:
+            cases.append({'f': acc.name, 'a': '(NP(%r, %r, %d)[:, :%d],)' % (spec, (shape[0], shape[1] + 2), seed, shape[1]), 't': acc.tag,
+                          'cat': 'np-cols' if dt == acc.dt else 'np-cols/other-dtype', 'lk': 'row-padded'})
+            continue
         if kind == 'np-swapped' and dt in ('short', 'int', 'long', 'float', 'double', 'unsigned int'):
             spec = "np.dtype(%s).newbyteorder('>')" % spec
         order = 'F' if kind == 'np-f' else 'C'
@@ -432,16 +459,18 @@ def classify(acc, case, exp, got, crashed=False):
             return 'crash:legacy-buffer:ctypes-exporter-leaves-strides-NULL'
         if fmt is not None and mal is None:
             try:
-                fl = c17ref.flatten(fmt)
-                if len(fl.prims) > len(c17ref.prims_of(acc.dt)):
-                    return 'crash:format-continues-after-declared-type-is-consumed'
+                nitems = len(c17ref.flatten(fmt).prims)
             except c17ref.Malformed:
-                pass
+                nitems = len(re.findall(r'Z[fdg]|[cbB?hHiIlLqQfdgOPspnNe]', re.sub(r':[^:]*:', '', fmt)))
+            if nitems > len(c17ref.prims_of(acc.dt)):
+                return 'crash:format-continues-after-declared-type-is-consumed'
         return 'crash:%s:%s:%s' % (dk, form, mal or case.get('cat', '?').split(':')[0].split('/')[0])
     if cls(exp) == 'accept' and cls(got) == 'accept':
         return 'values:%s:%s:%s' % (dk, form, case.get('lk'))
     if cls(exp) == 'reject' and mal == 'unbalanced-braces' and cls(got) == 'accept':
         return 'reject->accept:format-with-unbalanced-braces'
+    if cls(exp) == 'reject' and mal == 'zero-repeat-struct' and cls(got) == 'accept':
+        return 'reject->accept:zero-repeat-count-before-struct'
     if cls(exp) == 'reject' and mal == 'unterminated-field-name':
         return 'reject->%s:format-with-unterminated-field-name' % cls(got)
     if cls(exp) == 'accept' and cls(got) == 'reject' and c17ref.leading_struct_not_first(acc.dt):
@@ -489,8 +518,8 @@ def main(ck):
         rng = ck.rng('cases%d' % gi)
         cases = []
         for a in g:
-            cases += gen_cases(ck, a, rng, prod_hist, ck.pick(230, 1200))
-            cases += real_exporter_cases(ck, a, rng, ck.pick(30, 120))
+            cases += gen_cases(ck, a, rng, prod_hist, ck.pick(120, 1200))
+            cases += real_exporter_cases(ck, a, rng, ck.pick(16, 120))
         for i, c in enumerate(cases):
             c['id'] = i
         runs.append((name, rp, cases))
@@ -597,9 +626,9 @@ def main(ck):
     low = [p for p in need if prod_hist.get(p, 0) < 50]
     ck.inconclusive_if(bool(low), 'grammar productions used fewer than 50 times: %s' % low)
     return ck.finish(
-        total_n, total_distinct,
+        total_n, len(DISTINCT),
         'one evaluation = one acquisition attempt (plus reading all elements when it succeeds) compared with the model; '
-        'distinct_nontrivial = distinct (function, model outcome) pairs; every accessor goes through __Pyx_BufFmt_CheckString '
+        'distinct_nontrivial = distinct (function, format string, asserted model verdict, layout) combinations of the fakebuf cases, counted in the check process; every accessor goes through __Pyx_BufFmt_CheckString '
         '(static presence) and the model must accept between 10 % and 90 % of the cases',
         samples,
         extra={'accessors': len(accs), 'declared_dtypes': sorted({a.dt for a in accs}), 'access_forms': sorted({a.tag.split('/')[1] for a in accs}),
